@@ -58,6 +58,27 @@ func randName(rng *common.Rng, pool []string) string {
 		}
 		return freshPart(rng)
 	}
+	if rng.Chance(12) {
+		// a long name: total length around the limits a reader could be written against
+		// (one 4096-byte page holds the 64-byte header + 4032 name bytes; 16-bit length field)
+		targets := []int{301 + rng.Intn(1700), 4028 + rng.Intn(12), 4090 + rng.Intn(12), 8120 + rng.Intn(100),
+			16380 + rng.Intn(10), 32760 + rng.Intn(16), 65530 + rng.Intn(6)}
+		n := targets[rng.Intn(len(targets))]
+		head := part() + "/" + part() + "/"
+		var sb strings.Builder
+		sb.WriteString(head)
+		for sb.Len() < n {
+			switch rng.Intn(20) {
+			case 0:
+				sb.WriteString("é")
+			case 1:
+				sb.WriteString("水")
+			default:
+				sb.WriteByte("abcdefghijklmnopqrstuvwxyz0123456789"[rng.Intn(36)])
+			}
+		}
+		return sb.String()[:n] // may cut a multi-byte character: names are byte strings to the engine
+	}
 	switch r := rng.Intn(100); {
 	case r < 3:
 		return ""
@@ -293,7 +314,7 @@ func main() {
 	slog.SetDefault(slog.New(slog.NewTextHandler(io.Discard, nil)))
 	a := common.ParseArgs()
 	run := common.NewRun(a, "C29", "HV.Storage.C29Check")
-	run.Meta.Rule = "a directory case is a data directory of 1..8 real .hyd files (fresh, appended, compacted through each entry point, chronicler-written, legacy V2 layout plain/appended/compacted, still open in a writer) under random UTF-8 names (three-part, and two-/one-part/empty ones that the explorer must skip), scanned by the real explorer; a file case is one of those files with ReadSwampName / GetSwampName / LoadIndex observations and its header bytes; non-trivial file case = the file went through at least one append session, compaction or format upgrade, or is a legacy file; non-trivial directory = at least 3 listed swamps and one skipped file"
+	run.Meta.Rule = "a directory case is a data directory of 1..8 real .hyd files (fresh, appended, compacted through each entry point, chronicler-written, legacy V2 layout plain/appended/compacted, still open in a writer) under random UTF-8 names (three-part, and two-/one-part/empty ones that the explorer must skip), scanned by the real explorer; a file case is one of those files with ReadSwampName / GetSwampName / LoadIndex observations and its header bytes; non-trivial file case = the file went through at least one append session, compaction or format upgrade, or is a legacy file; names of 301..65535 bytes with non-periodic content cluster around the 4096-byte page and the 16-bit field; junk (.hyd directories, empty/garbage/short .hyd files, swamp files under another extension) is mixed in; the SAME explorer then rescans after the directory changed (all or some swamps removed, swamps added, a file replaced or moved, nothing changed) and every scan is a directory case, with the other index views (pages, sanctuaries, realms, details, sizes) cross-checked; non-trivial directory = at least 3 listed swamps and one skipped file, or a rescan"
 	rng := common.NewRng(a.Seed, "C29")
 	ndirs := 150
 	if a.Tier == "thorough" {
@@ -310,10 +331,16 @@ func main() {
 	}
 	defer os.RemoveAll(tmp)
 
+	type round struct {
+		what     string
+		present  []*fileSpec // files on disk when the scan ran
+		listing  []string
+		viewsBad string // Go-side: the other listing views disagree with ListSwamps
+	}
 	type dirJob struct {
-		files   []*fileSpec
-		listing []string
-		details map[string]*explorer.SwampDetail
+		files   []*fileSpec // every file ever created in this directory (file cases)
+		rounds  []*round
+		details map[string]*explorer.SwampDetail // from the first scan
 		errs    []string
 	}
 	jobs := make([]*dirJob, ndirs)
@@ -326,9 +353,71 @@ func main() {
 		d := &dirJob{details: map[string]*explorer.SwampDetail{}}
 		jobs[i] = d
 		root := filepath.Join(tmp, fmt.Sprintf("d%d", i))
-		nf := 1 + r.Intn(8)
 		pool := []string{freshPart(r), freshPart(r), freshPart(r)}
 		used := map[string]bool{}
+		var present []*fileSpec
+		serial := 0
+		addFile := func(nm string, rel string) {
+			if used[nm] {
+				return
+			}
+			used[nm] = true
+			f := &fileSpec{Mode: modes[r.Intn(len(modes))], Name: nm, NameLen: len(nm)}
+			if len(nm) <= 300 {
+				f.NameStr = nm
+			}
+			if nm == "" && strings.HasPrefix(f.Mode, "v2") {
+				f.Mode = "fresh" // a legacy file always carries its name
+			}
+			if len(nm) > 20000 && f.Mode == "chronicler" {
+				f.Mode = "appended"
+			}
+			serial++
+			if rel == "" {
+				rel = filepath.Join(fmt.Sprintf("%d", 100+r.Intn(3)), fmt.Sprintf("%02x", r.Intn(256)), fmt.Sprintf("f%d.hyd", serial))
+			}
+			f.Rel = rel
+			path := filepath.Join(root, f.Rel)
+			os.MkdirAll(filepath.Dir(path), 0o755)
+			if err := build(f, path, r); err != nil {
+				d.errs = append(d.errs, fmt.Sprintf("%s(name %d bytes): %v", f.Mode, len(nm), err))
+			}
+			observe(f, path)
+			d.files = append(d.files, f)
+			if f.Exists {
+				present = append(present, f)
+			}
+		}
+		removeFile := func(k int) string {
+			f := present[k]
+			if f.open != nil {
+				f.open.Close()
+				f.open = nil
+			}
+			os.Remove(filepath.Join(root, f.Rel))
+			present = append(present[:k:k], present[k+1:]...)
+			return f.Rel
+		}
+		junk := func() {
+			dir := filepath.Join(root, fmt.Sprintf("%d", 100+r.Intn(3)), "zz")
+			os.MkdirAll(dir, 0o755)
+			switch r.Intn(5) {
+			case 0:
+				os.WriteFile(filepath.Join(dir, fmt.Sprintf("empty%d.hyd", serial)), nil, 0o644)
+			case 1:
+				os.WriteFile(filepath.Join(dir, fmt.Sprintf("garbage%d.hyd", serial)), r.Bytes(10+r.Intn(200)), 0o644)
+			case 2:
+				os.MkdirAll(filepath.Join(dir, fmt.Sprintf("dir%d.hyd", serial)), 0o755)
+			case 3:
+				// a perfectly good swamp file under a name the scan must ignore
+				tmpf := &fileSpec{Mode: "fresh", Name: "ghost/of/backup"}
+				build(tmpf, filepath.Join(dir, fmt.Sprintf("copy%d.hyd.bak", serial)), r)
+			case 4:
+				os.WriteFile(filepath.Join(dir, fmt.Sprintf("short%d.hyd", serial)), []byte("HYDR\x03\x00"), 0o644)
+			}
+			serial++
+		}
+		nf := 1 + r.Intn(8)
 		for k := 0; k < nf; k++ {
 			nm := randName(r, pool)
 			if i%40 == 7 && k == 0 {
@@ -337,37 +426,139 @@ func main() {
 			if i%40 == 9 && k == 0 {
 				nm = "s/r/" + strings.Repeat("n", 65536-4)
 			}
-			if used[nm] {
-				continue
-			}
-			used[nm] = true
-			f := &fileSpec{Mode: modes[r.Intn(len(modes))], Name: nm, NameLen: len(nm)}
-			if len(nm) > 300 {
-				f.Mode = "fresh"
-			} else {
-				f.NameStr = nm
-			}
-			if nm == "" && strings.HasPrefix(f.Mode, "v2") {
-				f.Mode = "fresh" // a legacy file always carries its name
-			}
-			f.Rel = filepath.Join(fmt.Sprintf("%d", 100+r.Intn(3)), fmt.Sprintf("%02x", r.Intn(256)), fmt.Sprintf("f%d.hyd", k))
-			path := filepath.Join(root, f.Rel)
-			os.MkdirAll(filepath.Dir(path), 0o755)
-			if err := build(f, path, r); err != nil {
-				d.errs = append(d.errs, fmt.Sprintf("%s(name %d bytes): %v", f.Mode, len(nm), err))
-			}
-			observe(f, path)
-			d.files = append(d.files, f)
+			addFile(nm, "")
+		}
+		if r.Chance(40) {
+			junk()
 		}
 		ex := explorer.New(root)
-		if err := ex.Scan(context.Background()); err != nil {
-			d.errs = append(d.errs, "scan: "+err.Error())
+		everListed := map[string]bool{}
+		scan := func(what string) {
+			rd := &round{what: what, present: append([]*fileSpec{}, present...)}
+			d.rounds = append(d.rounds, rd)
+			if err := ex.Scan(context.Background()); err != nil {
+				d.errs = append(d.errs, "scan: "+err.Error())
+			}
+			res := ex.ListSwamps(&explorer.SwampFilter{Limit: 100000})
+			now := map[string]bool{}
+			for _, sd := range res.Swamps {
+				full := sd.Sanctuary + "/" + sd.Realm + "/" + sd.Swamp
+				rd.listing = append(rd.listing, full)
+				now[full] = true
+				if len(d.rounds) == 1 {
+					d.details[full] = sd
+				}
+			}
+			// the other views of the same index must describe the same set
+			bad := func(f string, a ...interface{}) {
+				if rd.viewsBad == "" {
+					rd.viewsBad = fmt.Sprintf(f, a...)
+				}
+			}
+			if res.Total != int64(len(res.Swamps)) {
+				bad("ListSwamps Total %d but %d swamps returned", res.Total, len(res.Swamps))
+			}
+			var paged []string
+			for off := int64(0); off < int64(len(rd.listing))+2; off += 2 {
+				pg := ex.ListSwamps(&explorer.SwampFilter{Offset: off, Limit: 2})
+				for _, sd := range pg.Swamps {
+					paged = append(paged, sd.Sanctuary+"/"+sd.Realm+"/"+sd.Swamp)
+				}
+			}
+			if strings.Join(paged, "\x00") != strings.Join(rd.listing, "\x00") {
+				bad("pages of 2 give %d swamps, the full listing %d (or another order)", len(paged), len(rd.listing))
+			}
+			var viaTree int64
+			nsan := 0
+			for _, si := range ex.ListSanctuaries() {
+				nsan++
+				viaTree += si.SwampCount
+				var viaRealms int64
+				for _, ri := range ex.ListRealms(si.Name) {
+					viaRealms += ri.SwampCount
+				}
+				if viaRealms != si.SwampCount || int64(len(ex.ListAllSwamps(si.Name, ""))) != si.SwampCount {
+					bad("sanctuary view: %d swamps, realms sum %d, ListAllSwamps %d", si.SwampCount, viaRealms, len(ex.ListAllSwamps(si.Name, "")))
+				}
+			}
+			if viaTree != int64(len(rd.listing)) {
+				bad("ListSanctuaries counts %d swamps, ListSwamps %d", viaTree, len(rd.listing))
+			}
+			for _, sd := range res.Swamps {
+				if got, err := ex.GetSwampDetail(sd.Sanctuary, sd.Realm, sd.Swamp); err != nil || got.FilePath != sd.FilePath {
+					bad("GetSwampDetail of a listed swamp fails or names another file")
+				}
+			}
+			for full := range everListed {
+				if !now[full] {
+					parts := strings.SplitN(full, "/", 3)
+					if _, err := ex.GetSwampDetail(parts[0], parts[1], parts[2]); err == nil {
+						bad("GetSwampDetail still answers for a swamp that is no longer listed")
+					}
+					if parts[0] != "" {
+						if sz, err := ex.GetSize(parts[0], parts[1], parts[2]); err == nil && sz.FileCount > 0 {
+							bad("GetSize still counts a swamp that is no longer listed")
+						}
+					}
+				}
+			}
+			for full := range now {
+				everListed[full] = true
+			}
 		}
-		res := ex.ListSwamps(&explorer.SwampFilter{Limit: 100000})
-		for _, sd := range res.Swamps {
-			full := sd.Sanctuary + "/" + sd.Realm + "/" + sd.Swamp
-			d.listing = append(d.listing, full)
-			d.details[full] = sd
+		scan("first scan")
+		// second and later use of the same Explorer after the directory changed
+		if r.Chance(65) {
+			for step := 0; step < 1+r.Intn(3); step++ {
+				what := ""
+				switch q := r.Intn(100); {
+				case q < 25 && len(present) > 0:
+					what = "all swamps removed"
+					for len(present) > 0 {
+						removeFile(0)
+					}
+					if r.Bool() {
+						os.RemoveAll(root)
+						os.MkdirAll(root, 0o755)
+					}
+				case q < 50 && len(present) > 0:
+					what = "some swamps removed"
+					for k := 0; k < 1+r.Intn(len(present)); k++ {
+						if len(present) > 0 {
+							removeFile(r.Intn(len(present)))
+						}
+					}
+				case q < 65 && len(present) > 0:
+					what = "a file replaced by another swamp at the same path"
+					rel := removeFile(r.Intn(len(present)))
+					addFile(randName(r, pool), rel)
+				case q < 75 && len(present) > 0:
+					what = "a file moved to another island"
+					f := present[r.Intn(len(present))]
+					if f.open == nil {
+						nrel := filepath.Join("7"+fmt.Sprint(step), "mv", filepath.Base(f.Rel))
+						os.MkdirAll(filepath.Dir(filepath.Join(root, nrel)), 0o755)
+						if os.Rename(filepath.Join(root, f.Rel), filepath.Join(root, nrel)) == nil {
+							f.Rel = nrel
+						}
+					}
+				case q < 85:
+					what = "nothing changed"
+				default:
+					what = "swamps added"
+					for k := 0; k < 1+r.Intn(3); k++ {
+						addFile(randName(r, pool), "")
+					}
+				}
+				if what == "" {
+					what = "swamps added"
+					addFile(randName(r, pool), "")
+				}
+				if r.Chance(25) {
+					junk()
+				}
+				scan("rescan: " + what)
+			}
 		}
 		for _, f := range d.files {
 			if f.open != nil {
@@ -387,10 +578,14 @@ func main() {
 			ids[s] = v
 			return v
 		}
-		var written []string
-		listedWant, skipped := 0, 0
 		for _, f := range d.files {
 			run.Hist("mode_" + f.Mode)
+			switch {
+			case f.NameLen > 4032:
+				run.Hist("name_len>4032")
+			case f.NameLen > 300:
+				run.Hist("name_len_301..4032")
+			}
 			if !f.Exists {
 				run.Hist("file_not_created")
 				if f.NameLen <= 300 {
@@ -398,57 +593,80 @@ func main() {
 					// that cannot match (fast = None)
 					run.Add(common.App("CaseFile", "[]", "0", common.ByteList([]byte(f.Name)), "None", "None", "None", "[]"),
 						map[string]interface{}{"kind": "file", "spec": f, "errors": d.errs}, false)
+				} else if f.NameLen <= 65535 {
+					run.Add(common.App("CaseBig", "[]", "0", common.N(uint64(f.NameLen)), "false", "false", "false"),
+						map[string]interface{}{"kind": "file-long-name", "spec": f, "errors": d.errs}, false)
 				}
 				continue
 			}
 			has3 := strings.Count(f.Name, "/") >= 2
-			if has3 {
-				listedWant++
-			} else {
-				skipped++
-			}
-			written = append(written, common.Pair(common.N(id(f.Name)), common.Bool(has3)))
 			var ents []string
 			for _, e := range f.entries {
 				ents = append(ents, common.Pair(common.Pair(common.N(uint64(e.Operation)), common.ByteList([]byte(e.Key))), common.ByteList(e.Data)))
 			}
+			var idx int
 			if f.NameLen > 300 {
 				eq := func(p *string) bool { return p != nil && *p == f.Name }
 				hdr := f.prefix
 				if len(hdr) > 64 {
 					hdr = hdr[:64]
 				}
-				run.Add(common.App("CaseBig", common.ByteList(hdr), common.N(uint64(f.NameLen)), common.Bool(eq(f.Fast)), common.Bool(eq(f.Rdr)), common.Bool(eq(f.Li))),
+				idx = run.Add(common.App("CaseBig", common.ByteList(hdr), common.N(uint64(f.Version)), common.N(uint64(f.NameLen)), common.Bool(eq(f.Fast)), common.Bool(eq(f.Rdr)), common.Bool(eq(f.Li))),
 					map[string]interface{}{"kind": "file-long-name", "spec": f}, true)
-				continue
+			} else {
+				term := common.App("CaseFile", common.ByteList(f.prefix), common.N(uint64(f.Version)), common.ByteList([]byte(f.Name)),
+					optBytes(f.Fast), optBytes(f.Rdr), optBytes(f.Li), common.List(ents))
+				idx = run.Add(term, map[string]interface{}{"kind": "file", "spec": f}, f.Mode != "fresh")
 			}
-			term := common.App("CaseFile", common.ByteList(f.prefix), common.N(uint64(f.Version)), common.ByteList([]byte(f.Name)),
-				optBytes(f.Fast), optBytes(f.Rdr), optBytes(f.Li), common.List(ents))
-			idx := run.Add(term, map[string]interface{}{"kind": "file", "spec": f}, f.Mode != "fresh")
-			// Go-side: the explorer's counts agree with the lifter
-			if sd := d.details[f.Name]; sd != nil && has3 {
-				if sd.EntryCount != f.sumEnt || sd.BlockCount != f.nBlocks || sd.Version != f.Version {
+			// Go-side: the explorer's counts agree with the lifter (first scan only: later rounds may
+			// have replaced the file)
+			if sd := d.details[f.Name]; sd != nil && has3 && len(d.rounds) > 0 {
+				inFirst := false
+				for _, p := range d.rounds[0].present {
+					inFirst = inFirst || p == f
+				}
+				if inFirst && (sd.EntryCount != f.sumEnt || sd.BlockCount != f.nBlocks || sd.Version != f.Version) {
 					run.Violate(idx, "listing describes the swamps on disk", "listing_counts_differ",
 						fmt.Sprintf("mode %s: explorer entry/block/version %d/%d/%d, file has %d/%d/%d", f.Mode, sd.EntryCount, sd.BlockCount, sd.Version, f.sumEnt, f.nBlocks, f.Version))
 				}
 			}
 		}
-		var listing []string
-		for _, l := range d.listing {
-			v, ok := ids[l]
-			if !ok {
-				v = 999999
+		for ri, rd := range d.rounds {
+			var written []string
+			listedWant, skipped := 0, 0
+			for _, f := range rd.present {
+				has3 := strings.Count(f.Name, "/") >= 2
+				if has3 {
+					listedWant++
+				} else {
+					skipped++
+				}
+				written = append(written, common.Pair(common.N(id(f.Name)), common.Bool(has3)))
 			}
-			listing = append(listing, common.N(v))
+			var listing []string
+			for _, l := range rd.listing {
+				v, ok := ids[l]
+				if !ok {
+					v = 999999
+				}
+				listing = append(listing, common.N(v))
+			}
+			var specs []interface{}
+			for _, f := range rd.present {
+				specs = append(specs, f)
+			}
+			idx := run.Add(common.App("CaseDir", common.List(written), common.List(listing)),
+				map[string]interface{}{"kind": "directory", "scan": ri + 1, "what": rd.what, "files_on_disk": specs, "listing": len(rd.listing), "errors": d.errs},
+				(listedWant >= 3 && skipped >= 1) || ri > 0)
+			if ri == 0 {
+				run.Hist("directories")
+			} else {
+				run.Hist(rd.what)
+			}
+			if rd.viewsBad != "" {
+				run.Violate(idx, "listing contains exactly the swamps present on disk", "listing_views_disagree", rd.what+": "+rd.viewsBad)
+			}
 		}
-		var specs []interface{}
-		for _, f := range d.files {
-			specs = append(specs, f)
-		}
-		run.Add(common.App("CaseDir", common.List(written), common.List(listing)),
-			map[string]interface{}{"kind": "directory", "files": specs, "listing": len(d.listing), "errors": d.errs},
-			listedWant >= 3 && skipped >= 1)
-		run.Hist("directories")
 	}
 	run.Meta.Traces = run.Meta.Evaluations
 	run.Finish("check_all")
